@@ -456,6 +456,29 @@ func scenTimeouts(g *rand.Rand) (string, []string, error) {
 			return "connection unusable after a timed-out block", w.log, nil
 		}
 	}
+	// a wake-up that delivers nothing (the element is gone again before the retry) does not cancel
+	// the timeout: the block still ends t after it was issued
+	for _, cmd := range [][]string{{"BLPOP", "k", "0.5"}, {"BLMOVE", "k", "kdst", "LEFT", "RIGHT", "0.5"}, {"BRPOP", "other", "k", "0.5"}} {
+		t0 := time.Now()
+		w.block(0, []string{"k"}, cmd...)
+		time.Sleep(150 * time.Millisecond)
+		for _, a := range [][]string{{"MULTI"}, {"RPUSH", "k", "gone"}, {"LPOP", "k"}, {"EXEC"}} {
+			if _, err := w.do(a...); err != nil {
+				return "transaction got no reply", w.log, nil
+			}
+		}
+		r, err := w.poll(0, 2500*time.Millisecond)
+		el := time.Since(t0)
+		if err != nil || r == nil {
+			return fmt.Sprintf("%v woken by a push whose element was taken away again is still blocked %v after it was issued (timeout 0.5 s)", cmd, el.Round(time.Millisecond)), w.log, nil
+		}
+		if !r.Nil && !(r.Kind == '*' && len(r.Elems) == 0) {
+			return fmt.Sprintf("%v: timeout reply is not null: %s", cmd, r.String()), w.log, nil
+		}
+		if el < 498*time.Millisecond || el > 900*time.Millisecond {
+			return fmt.Sprintf("%v (timeout 0.5 s) with a fruitless wake-up at 0.15 s ended after %v", cmd, el.Round(time.Millisecond)), w.log, nil
+		}
+	}
 	// timeout 0 waits indefinitely (observed for 400 ms), then a push completes it
 	w.block(0, []string{"k"}, "BRPOP", "k", "0")
 	if r, _ := w.poll(0, 400*time.Millisecond); r != nil {
